@@ -5,13 +5,13 @@ from common import lean_stage
 from vlib import Check
 
 RULE = ('histories generated from VERIF_SEED by checks/wl_gen.py (families: random walk, overwrite-under-snapshot chain, tombstone-over-deeper-value, '
-        'disjoint ranges, case-folding comparator with randomly spelled keys; 11 option sets incl. 4 comparators, compression, filters, tiny caches, no-mmap, reuse_logs, paranoid) run on the real database '
+        'disjoint ranges, case-folding comparator with randomly spelled keys, level-0 chains with partial manual compactions, one user key split over adjacent files with neighbouring-range compactions; 11 option sets incl. 4 comparators, compression, filters, tiny caches, no-mmap, reuse_logs, paranoid) run on the real database '
         '(ASan+UBSan build of the current tree) with a 64 KiB write buffer; every applied version edit, table content, get, iterator step and directory '
         'listing is validated by lean tracecheck against the Lsm model (stepOk, invCheck, Lsm.get) and against the plain history of writes; '
         'a history is non-trivial when it contains >= 1 flush and >= 1 compaction; distinct = distinct (family, options, counters)')
 
 
-def run(pid, tier, tags, theorems, imports, targets, quick=(24, 45), thorough=(400, 120), families=None, extra=None, journal=False):
+def run(pid, tier, tags, theorems, imports, targets, quick=(24, 45), thorough=(400, 120), families=None, extra=None, journal=False, oracle_tags=()):
     chk = Check(pid, tier)
     lean_stage(chk, theorems, imports, list(targets) + ['tracecheck'])
     n, nops = quick if tier == 'quick' else thorough
@@ -19,11 +19,12 @@ def run(pid, tier, tags, theorems, imports, targets, quick=(24, 45), thorough=(4
     if families:
         per = max(1, n // len(families))
         for fam in families:
-            wl_run.run_histories(chk, per, nops, tags, 'histories-' + fam, family=fam, journal=journal)
+            wl_run.run_histories(chk, per, nops, tags, 'histories-' + fam, family=fam, journal=journal, oracle_tags=oracle_tags)
     else:
-        wl_run.run_histories(chk, n, nops, tags, 'histories', journal=journal)
-    if not families or 'casefold' not in families:
-        wl_run.run_histories(chk, max(6, n // 4), nops, tags, 'histories-casefold', family='casefold', journal=journal)
+        wl_run.run_histories(chk, n, nops, tags, 'histories', journal=journal, oracle_tags=oracle_tags)
+    for fam in ('casefold', 'l0chain', 'splitkey'):
+        if not families or fam not in families:
+            wl_run.run_histories(chk, max(6, n // 4), nops, tags, 'histories-' + fam, family=fam, journal=journal, oracle_tags=oracle_tags)
     if extra:
         extra(chk, tier)
     chk.assumptions += ['memtable and table files are abstracted as sorted runs (table bytes <-> run is C16; skiplist order is checked by the mem dumps)',
@@ -35,8 +36,7 @@ def replay(pid, path):
     rp = json.load(open(path))
     wl_bin = vlib.build_harness('wl', 'asan', exclude=['db_impl.c'])
     if 'script' in rp:
-        rc, out, err = wl_run.run_script(wl_bin, rp['script'])
-        problems, stats = wl_run.run_tracecheck(out)
+        rc, out, err, problems, stats = wl_run.replay_script(wl_bin, rp['script'])
         print('rc', rc, 'stats', stats)
         for p in problems[:20]:
             print(p)
